@@ -80,6 +80,11 @@ func c03(c *Check) {
 		}
 	}
 
+	c.Rule("C03/error-result-leaves-no-effect", "the cache context of the destination callback is flushed only when the contract's result code is zero: an acknowledgement carrying a non-zero result code makes the source refund, so nothing the callback did may be kept (the packet contract returns error codes without reverting the transfer step)", 1)
+	for _, w := range writes {
+		c.notReachableFromEdge(ms, "C03/error-result-leaves-no-effect", "write()", m, "(0 != {RES}.Code)", w.Ins)
+	}
+
 	c.Rule("C03/handled-error-needs-cache", "every call site of CallPacket/CallEVM/CallEVMWithData (packet and aggregate keepers) either propagates the error to the message result or runs on a cache-derived context", 15)
 	targets := map[*ssa.Function]bool{}
 	for _, s := range []string{pkKeeper + "Keeper.CallPacket", pkKeeper + "Keeper.CallEVM", pkKeeper + "Keeper.CallEVMWithData", "x/aggregate/keeper.Keeper.CallEVM", "x/aggregate/keeper.Keeper.CallEVMWithData"} {
